@@ -19,10 +19,11 @@ import (
 // functions, independently of the model).
 //
 // ops     q <hex>    -> ok <hex> | err empty|toolong|badchars|other
-//         qq <hex>   -> as q, followed (when accepted) by the result of validating the output again
-//         lim <int>  -> ok <n> | err <n>
-//         dec <hex>  -> runes of `range`: c<hex cp> / b<hex invalid byte>, comma separated ("-" if none)
-//         tbl space|control -> unicode.IsSpace / unicode.IsControl over all code points, as hex ranges
+//
+//	qq <hex>   -> as q, followed (when accepted) by the result of validating the output again
+//	lim <int>  -> ok <n> | err <n>
+//	dec <hex>  -> runes of `range`: c<hex cp> / b<hex invalid byte>, comma separated ("-" if none)
+//	tbl space|control -> unicode.IsSpace / unicode.IsControl over all code points, as hex ranges
 //
 // generator modes (-arg mode=…): random (default), enum (all strings of <= len symbols over a 16-symbol
 // alphabet, -arg len=L), decode (systematic decoder inputs), tables.
